@@ -71,7 +71,7 @@ const WIDTHS: [u8; 5] = [0, 1, 2, 4, 8];
 
 /// Body palette: a valid body of every kind (so every type sees bodies valid for itself, valid
 /// for a shape-sharing type, and invalid), plus invalid items.
-fn palette() -> &'static Vec<Vec<u8>> {
+pub(crate) fn palette() -> &'static Vec<Vec<u8>> {
     static P: OnceLock<Vec<Vec<u8>>> = OnceLock::new();
     P.get_or_init(|| {
         let mut v = vec![];
